@@ -148,7 +148,9 @@ func factsSkeleton() {
 		{"store/redis.go", "redisStore", "getKey"}, {"store/redis.go", "redisStore", "Get"}, {"store/redis.go", "redisStore", "Set"}, {"store/redis.go", "redisStore", "Delete"},
 		{"store/mongo.go", "mongoStore", "Get"}, {"store/mongo.go", "mongoStore", "Set"}, {"store/mongo.go", "mongoStore", "Delete"},
 		{"store/badger.go", "badgerStore", "Get"}, {"store/badger.go", "badgerStore", "Set"}, {"store/badger.go", "badgerStore", "Delete"},
-		{"main.go", "", "run"},
+		{"main.go", "", "run"}, {"main.go", "", "main"}, {"main.go", "", "update"},
+		{"config/etcd_client.go", "etcdClient", "Get"}, {"config/etcd_client.go", "etcdClient", "Set"}, {"config/etcd_client.go", "etcdClient", "Watch"},
+		{"config/config.go", "", "Write"}, {"config/config.go", "", "Read"},
 	} {
 		var sk []string
 		if fd := funcDecl(parse(pr[0]), pr[1], pr[2]); fd != nil {
